@@ -189,11 +189,12 @@ def run(ctx):
     tasks = [(fn, n) for fn in FNS for n in range(0, NMAX + 1) if not (n == 0 and fn.endswith(('_scalar', '_avx2')) and not fn.startswith('sum'))]
     # the vector kernels do not fork per element (lane-wise min/max are if-then-else terms), so they are taken much further: enough
     # for two levels of unrolling (8- or 16-wide) on both sides of a full block plus every remainder; the sum kernels likewise
-    VMAX = 17 if ctx.tier == 'quick' else 36
+    VMAX = 17 if ctx.tier == 'quick' else 24        # (36 was tried: 50 min and 28 min/max obligations undecided after 60 s)
+    VMM = 17 if ctx.tier == 'quick' else 20
     tasks += [(fn, n) for fn in ('sum_f64_avx2', 'sum_f64_scalar') for n in range(NMAX + 1, VMAX + 1)]
-    tasks += [(fn, n, 'ord') for fn in ('min_f64_avx2', 'max_f64_avx2') for n in range(1, VMAX + 1)]
+    tasks += [(fn, n, 'ord') for fn in ('min_f64_avx2', 'max_f64_avx2') for n in range(1, VMM + 1)]
     tasks += [(fn, n, 'ord') for fn in ('min_f64_scalar', 'max_f64_scalar') for n in range(1, (8 if ctx.tier == 'quick' else 11))]   # one fork per element
-    ctx.bounds['vector_kernel_lengths'] = '0..%d for the AVX2 kernels and both sum kernels' % VMAX
+    ctx.bounds['vector_kernel_lengths'] = '0..%d for both sum kernels, 0..%d for the AVX2 min / max kernels' % (VMAX, VMM)
     # thorough: the Sum / Avg / Min / Max wrappers over events (apply and apply_refs), batches of 0..2 events whose field is missing or any value
     agg_tasks = [('agg', a, m, k) for a in ('Sum', 'Avg', 'Min', 'Max') for m in ('apply', 'apply_refs') for k in (0, 1, 2)] if ctx.tier == 'thorough' else []
     if agg_tasks:
